@@ -76,6 +76,8 @@ def check(case, ctx, minimal_only):
         return Result("inconclusive", None, classes + ["opensmt-timeout"])
     if r.out.crashed():
         return Result("inconclusive", None, classes + ["opensmt-crash"])
+    if gen.opt_get(script, ":produce-unsat-cores") != "true":
+        return Result("inconclusive", None, classes + ["cores-not-enabled"])
     full = gen.opt_get(script, ":print-cores-full") == "true"
     minimal = gen.opt_get(script, ":minimal-unsat-cores") == "true"
     glob = gen.opt_get(script, ":global-declarations") == "true"
@@ -293,7 +295,14 @@ def sig_solver_symbol(case, res):
         any(".ite" in x for x in (d.get("response") or [])) and "ite" in gen.render(case)
 
 
+def sig_global_popped(case, res):
+    d = _detail(res)
+    return str(d.get("what", "")).startswith("core-lists-name-of-non-assertion") and \
+        gen.opt_get(case, ":global-declarations") == "true" and any(c[0] == "pop" for c in case["cmds"][:d.get("cmd_index", 0)])
+
+
 SIGNATURES = {"core-after-recheck-of-unsat-state": sig_recheck_unsat_state,
+              "global-declarations-core-lists-popped-assertion": sig_global_popped,
               "core-misses-name-of-formula-asserted-twice": sig_duplicate_term,
               "full-core-prints-popped-assertion": sig_popped_in_full_core,
               "full-core-prints-preprocessed-formula": sig_solver_symbol}
